@@ -293,7 +293,7 @@ impl Ctx {
         coverage.insert("threads".into(), json!(self.threads));
 
         // replay files
-        let dir = format!("{VERIF_DIR}/replays/{}", self.id);
+        let dir = format!("{VERIF_DIR}/replays/{}{}", self.id, if cfg!(debug_assertions) { "-dbg" } else { "" });
         let _ = std::fs::remove_dir_all(&dir);
         let mut distinct_keys: BTreeMap<String, u64> = BTreeMap::new();
         for v in viol.iter() {
@@ -368,6 +368,14 @@ pub struct SweepOpts {
     pub hang_secs: u64,
 }
 
+/// When set (C01), every worker journals the chunk it is about to run, so that a process death
+/// (abort, stack overflow) can be attributed to a small range of cases.
+pub static JOURNAL: AtomicBool = AtomicBool::new(false);
+
+pub fn journal_dir() -> String {
+    format!("{VERIF_DIR}/replays/journal-{}", if cfg!(debug_assertions) { "dbg" } else { "release" })
+}
+
 impl Default for SweepOpts {
     fn default() -> Self {
         SweepOpts {
@@ -411,12 +419,18 @@ where
                         break;
                     }
                     let end = (start + chunk).min(total);
+                    if JOURNAL.load(Ordering::Relaxed) {
+                        let _ = std::fs::write(format!("{}/{t}.txt", journal_dir()), format!("{} {start} {end}\n", opts.name));
+                    }
                     for idx in start..end {
                         cur[t].store(idx + 1, Ordering::Relaxed);
                         f(idx, &mut local);
                     }
                 }
                 cur[t].store(0, Ordering::Relaxed);
+                if JOURNAL.load(Ordering::Relaxed) {
+                    let _ = std::fs::remove_file(format!("{}/{t}.txt", journal_dir()));
+                }
                 local
             }));
         }
